@@ -3,8 +3,9 @@ From Coq Require Import List String.
 From VQ.Gen Require Import pat_lfq_decode.
 Import ListNotations.
 Open Scope string_scope.
-Lemma pin_pat_lfq_decode : pat_lfq_decode =
+Definition pinned_pat_lfq_decode : list (string * string) :=
   [("rearrange", "... -> ... 1");
    ("rearrange", "... c d -> ... (c d)");
    ("rearrange", "b ... d -> b d ...")].
+Lemma pin_pat_lfq_decode : pat_lfq_decode = pinned_pat_lfq_decode.
 Proof. reflexivity. Qed.
